@@ -28,6 +28,7 @@ pub(crate) mod verif_keyring {
 
     // ---------------------------------------------------------------- E-KDF (injective, deterministic)
     pub static mut KDF_PW: [[u8; 4]; 3] = [[0; 4]; 3];
+    pub static mut KDF_LONG: [[u8; 132]; 3] = [[0; 132]; 3]; // passwords of exactly 132 bytes (the long-password harness)
     pub static mut KDF_PWLEN: [usize; 3] = [0; 3];
     pub static mut KDF_SALT: [[u8; 32]; 3] = [[0; 32]; 3];
     pub static mut KDF_OUT: [[u8; 32]; 3] = [[0; 32]; 3];
@@ -36,11 +37,12 @@ pub(crate) mod verif_keyring {
     pub fn scrypt_model(password: &[u8], salt: &[u8], n: usize, r: usize, p: usize, dk_len: usize) -> Vec<u8> {
         unsafe {
             if !(n == 32768 && r == 8 && p == 1 && dk_len == 32 && salt.len() == 32) { KDF_PARAMS_OK = false; }
-            assert!(password.len() <= 4 || password.len() >= 65, "[LIMIT] harness bound: passwords of 0..4 bytes (or the long one)");
-            let pl = if password.len() <= 4 { password.len() } else { 4 };
+            assert!(password.len() <= 4 || password.len() == 132, "[LIMIT] harness bound: passwords of 0..4 bytes, or of exactly 132 bytes");
+            let long = password.len() == 132;
+            let pl = if long { 4 } else { password.len() };
             let mut i = 0;
             while i < KDF_N {
-                if KDF_PWLEN[i] == password.len() && eq(password, &KDF_PW[i], pl) && eq(salt, &KDF_SALT[i], 32) { return KDF_OUT[i].to_vec(); }
+                if KDF_PWLEN[i] == password.len() && eq(password, &KDF_PW[i], pl) && (!long || eq(password, &KDF_LONG[i], 132)) && eq(salt, &KDF_SALT[i], 32) { return KDF_OUT[i].to_vec(); }
                 i += 1;
             }
             assert!(KDF_N < 3, "[LIMIT] harness bound: three distinct scrypt inputs");
@@ -49,6 +51,7 @@ pub(crate) mod verif_keyring {
             let mut j = 0;
             while j < 4 { if j < pl { KDF_PW[k][j] = password[j]; } j += 1; }
             KDF_PWLEN[k] = password.len();
+            if long { KDF_LONG[k].copy_from_slice(password); }
             KDF_SALT[k].copy_from_slice(salt);
             let o: [u8; 32] = kani::any();
             // injective: a new (password, salt) never yields an earlier key
@@ -130,6 +133,33 @@ pub(crate) mod verif_keyring {
         assert!(unsafe { KDF_PARAMS_OK }, "[C15] unlocking uses the same scrypt parameters");
         kani::cover!(pl == 0 && pl2 == 1);
         kani::cover!(pl == 4 && pl2 == 4);
+        core::mem::forget(sk); core::mem::forget(un); core::mem::forget(un2);
+    }
+
+    /// C15/C16: long passwords (132 bytes, longer than any block or name limit) count in full: two passwords that
+    /// differ in ONE byte anywhere (in particular beyond byte 64 or 128) are different passwords.
+    #[kani::proof]
+    #[kani::stub(kestrel_crypto::scrypt::scrypt, scrypt_model)]
+    #[kani::stub(kestrel_crypto::chapoly_encrypt_ietf, seal_model)]
+    #[kani::stub(kestrel_crypto::chapoly_decrypt_ietf, open_model)]
+    #[kani::unwind(140)]
+    pub fn c15_long_passwords() {
+        let skb: [u8; 32] = kani::any();
+        let salt: [u8; 32] = kani::any();
+        let pw1: [u8; 132] = kani::any();
+        let k: usize = kani::any();
+        let d: u8 = kani::any();
+        kani::assume(k < 132 && d != 0);
+        let mut pw2 = pw1;
+        pw2[k] ^= d;
+        let sk = PrivateKey::try_from(&skb[..]).unwrap();
+        let locked = Keyring::lock_private_key(&sk, &pw1, salt);
+        let un = Keyring::unlock_private_key(&locked, &pw1);
+        assert!(un.is_ok() && un.as_ref().unwrap().as_bytes() == &skb[..], "[C15,C16] a 132-byte password unlocks what it locked");
+        let un2 = Keyring::unlock_private_key(&locked, &pw2);
+        assert!(un2.is_err(), "[C15,C16] a long password that differs in any single byte (also beyond byte 64 / 128) does not unlock");
+        kani::cover!(k == 131);
+        kani::cover!(k == 0);
         core::mem::forget(sk); core::mem::forget(un); core::mem::forget(un2);
     }
 
@@ -265,6 +295,8 @@ pub(crate) mod verif_keyring {
         let k = kr.get_key(qn);
         if q < n { assert!(k.is_some() && k.unwrap().public_key.as_str() == pks[q], "[C17,C12] lookup by name returns that entry"); }
         else { assert!(k.is_none(), "[C17] unknown names are not found"); }
+        // names are matched exactly: a name that differs only in case is a different (here: absent) key
+        assert!(kr.get_key("A").is_none() && kr.get_key("B").is_none(), "[C17,C05,C12] lookup by name is exact (case-sensitive): a file is only ever addressed to / opened with the key of exactly the name given");
         kani::cover!(n == 3 && q == 2);
         kani::cover!(n == 0);
         core::mem::forget(kr); core::mem::forget(got);
